@@ -198,6 +198,32 @@ def qd_once(ctx):
             out.append(bad('QD-once', key, 'running a job whose payload is already gone returns normally instead of panicking (a job run twice is silently ignored)', fn=fname))
         else:
             out.append(ok('QD-once', key, 'payload moved out once; the empty case panics', fn=fname))
+    # FutureJob::run keeps the future when it is still pending
+    fj = F.fn('<desync::scheduler::future_job::FutureJob as desync::scheduler::job::ScheduledJob>::run')
+    if fj:
+        from .ordq import result_edges, edge_for, edom
+        polls = [(bb, t) for bb, t in fj.calls() if (t['func'].get('fn') or '').endswith('poll_unpin') or (t['func'].get('fn') or '').endswith('Future::poll')]
+        key = 'FutureJob::run|keeps-pending-future'
+        if len(polls) != 1:
+            out.append(undecided('QD-once', key, 'expected one poll of the job future, found %d' % len(polls)))
+        else:
+            e = result_edges(fj, polls[0][0])
+            pend = edge_for(e, 'core::task::poll::Poll', 'Pending') if e else None
+            stores = []
+            for bb, b in enumerate(fj.blocks):
+                if b['cleanup']:
+                    continue
+                for s_ in b['stmts']:
+                    if s_['k'] == 'assign' and s_['pl']['p'] and s_['pl']['p'][-1]['k'] == 'field' and s_['pl']['p'][-1]['n'] == 'action':
+                        ev = fj.expr_of_rvalue(s_['rv'])
+                        if ev[0] == 'agg' and ev[2].endswith('JobState::WaitingForFuture'):
+                            stores.append(bb)
+            if pend is not None and stores and fj.must_pass(pend, set(fj.exits()), set(stores)):
+                out.append(ok('QD-once', key, 'a future that returned Pending is stored back (WaitingForFuture) before run returns Pending', fn=fj.name))
+            else:
+                out.append(bad('QD-once', key, 'a job whose future returned Pending is not kept: the next run finds it Completed and panics, the operation is lost', fn=fj.name))
+    else:
+        out.append(undecided('QD-once', 'FutureJob::run|keeps-pending-future', 'anchor not found'))
     # JobState::take swaps in Completed
     js = F.fn('desync::scheduler::future_job::JobState::take')
     if not js:
